@@ -10,6 +10,45 @@ ASSUMPTIONS = [
 ]
 
 
+def spec_min_fence(code, ch):
+    """from the property ('a fence is always long enough to contain its content') and CommonMark 4.5: longer than every run
+    of the fence character that starts a line after at most three spaces, and at least 3"""
+    import re
+    best = 0
+    for line in code.split("\n"):
+        m = re.match(r"^ {0,3}(%s+)" % re.escape(ch), line)
+        if m and len(m.group(1)) >= 3:
+            best = max(best, len(m.group(1)))
+    return max(3, best + 1)
+
+
+def fence_function_sweep(tier, viol):
+    import itertools
+    from flowmark.formats.flowmark_markdown import _min_fence_length
+    n = 0
+    for ch in "`~":
+        alphabet = [ch, ch * 3, " ", "\n", "a", "    "]
+        for ln in range(0, 6 if tier == "quick" else 7):
+            for tup in itertools.product(alphabet, repeat=ln):
+                code = "".join(tup)
+                n += 1
+                got, want = _min_fence_length(code, ch), spec_min_fence(code, ch)
+                if got != want:
+                    viol.append({"clause": "fence_longer_than_content_runs", "input": {"code": code, "fence_char": ch}, "got": got, "want": want})
+                    if len(viol) > 10:
+                        return n
+    # through the pipeline: indented code blocks (no fence of their own) containing fence-like lines, at nesting
+    from . import docspace as D
+    for pre in ("", "> ", "- ", "1. > "):
+        for inner in ("```", " ```", "   `````", "~~~", "  ~~~~"):
+            doc = D.indent("    first\n    " + inner + "\n    last", pre, " " * len(pre) if not pre.endswith("> ") else pre) + "\n"
+            out = P.fmt(doc, width=88)
+            n += 1
+            if D.literal_spans(doc) != D.literal_spans(out):
+                viol.append({"clause": "fence_contains_content", "input": {"text": doc}, "got": out})
+    return n
+
+
 def bounded(tier, seed):
     n = 120 if tier == "quick" else 1200
     o = dict(cleanups=True, smartquotes=True, ellipses=True)
@@ -17,9 +56,13 @@ def bounded(tier, seed):
     sem = [dict(o, width=w, semantic=True) for w in (88, 12)]
     r1 = P.sweep(seed, n, [P.literal_spans_verbatim], option_sets=fill, budget_s=25 if tier == "quick" else 600)
     r2 = P.sweep(seed + 31, n, [P.literal_spans_verbatim], option_sets=sem, hazards=False, budget_s=15 if tier == "quick" else 600)
-    return {"evaluations": r1["evaluations"] + r2["evaluations"], "distinct_nontrivial": r1["distinct_nontrivial"] + r2["distinct_nontrivial"],
-            "violations": r1["violations"] + r2["violations"], "samples": r1["samples"],
-            "rule": "seeded documents x {88,12,0} fill / {88,12} semantic with cleanups, smart quotes and ellipses on: the sequence of "
+    fv = []
+    fn = fence_function_sweep(tier, fv)
+    return {"evaluations": r1["evaluations"] + r2["evaluations"] + fn, "distinct_nontrivial": r1["distinct_nontrivial"] + r2["distinct_nontrivial"],
+            "violations": r1["violations"] + r2["violations"] + fv, "samples": r1["samples"],
+            "rule": "(also: _min_fence_length == an independent spec on every code string of <= 5/6 tokens over {fence char, run of 3, "
+                    "space, newline, letter, 4 spaces}; indented code blocks holding fence-like lines in 4 containers) "
+                    "seeded documents x {88,12,0} fill / {88,12} semantic with cleanups, smart quotes and ellipses on: the sequence of "
                     "code blocks (info string, lines), code spans, inline HTML, link/image destinations and titles, autolinks and link "
                     "definitions is identical before and after; distinct = distinct outputs",
             "exhaustive": False, "bound": "%d documents per mode" % n}
